@@ -17,6 +17,12 @@ void replace_substrings(char *buffer,
     const char *streit = input + inlen;
     char *bufit = buffer;
 
+    if (maxsize == 0)
+        return;
+
+    /* the result is truncated to maxsize - 1 bytes and always terminated */
+    char *bufend = buffer + maxsize - 1;
+
     if (sublen == 0)
     {
         size_t len = __MIN__(maxsize - 1, inlen);
@@ -28,17 +34,19 @@ void replace_substrings(char *buffer,
     while ((finded = igris_memmem(strit, streit - strit, sub, sublen)) != NULL)
     {
         ptrdiff_t step = finded - strit;
+        size_t len = __MIN__((size_t)step, (size_t)(bufend - bufit));
 
-        memcpy(bufit, strit, step);
-        bufit += step;
+        memcpy(bufit, strit, len);
+        bufit += len;
         strit += step;
 
-        memcpy(bufit, rep, replen);
-        bufit += replen;
+        len = __MIN__(replen, (size_t)(bufend - bufit));
+        memcpy(bufit, rep, len);
+        bufit += len;
         strit += sublen;
     };
 
-    ptrdiff_t lastlen = streit - strit;
+    size_t lastlen = __MIN__((size_t)(streit - strit), (size_t)(bufend - bufit));
     memcpy(bufit, strit, lastlen);
     *(bufit + lastlen) = 0;
 }
